@@ -60,6 +60,7 @@ type Contract struct {
 	Invariants []*Clause                // closure invariants: hold before and after every call (assumed at entry, proved at return)
 	Partial   bool     // only the explicit clauses (post/inv/dec) are claimed: implicit obligations (no-panic, callee preconditions, frame) are assumed, i.e. the clauses hold for runs that return normally
 	Prune     bool     // check branch feasibility during symbolic execution and skip infeasible branches
+	AssumeDead map[string]string // "file.go:line" of the first statement of a branch -> label: assumed never taken (listed)
 	Reveal    []string // opaque spec predicates whose definition this function's proof may use
 	AllowPanic []string // explicit panic kinds that are part of the specified behaviour
 }
@@ -104,7 +105,7 @@ var clauseKeywords = map[string]bool{
 	"requires": true, "ensures": true, "ensures_assumed": true, "modifies": true, "loop": true, "decreases": true,
 	"props": true, "pure": true, "trusted": true, "func": true, "spec": true, "ghost": true,
 	"lemma": true, "axiom": true, "assume": true, "package": true, "nopanic": true, "iface": true,
-	"callback": true, "invariant": true,
+	"callback": true, "invariant": true, "assumedead": true,
 	"allowpanic": true, "delegates": true, "reveal": true, "owned": true, "prune": true, "partial": true,
 }
 
@@ -310,6 +311,13 @@ func (p *Program) parseClause(c *Contract, word, rest, src string) error {
 		c.AllowPanic = append(c.AllowPanic, strings.Fields(rest)...)
 	case "prune":
 		c.Prune = true
+	case "assumedead":
+		// assumedead file.go:LINE label words...
+		w, r := splitWord(rest)
+		if c.AssumeDead == nil {
+			c.AssumeDead = map[string]string{}
+		}
+		c.AssumeDead[w] = strings.TrimSpace(r)
 	case "partial":
 		c.Partial = true
 	case "invariant":
